@@ -124,9 +124,23 @@ theorem batches_ok (g : Nat → ρ → Stream ε ρ) (k : Nat) (c : Stream ε ρ
         · exact ⟨hd, h.1⟩
         · exact ih (k + 1) _ h.2 b hb'
 
+theorem handedFrom_items (g : Bool) (s : Stream ε ρ) : ∀ seen, (handedFrom g seen s).map (·.item) = s := by
+  induction s with
+  | nil => intro seen; rfl
+  | cons x xs ih => intro seen; simp [handedFrom, ih]
+
 theorem handed_ok_iff (g : Bool) (s : Stream ε ρ) :
     (∀ h ∈ handed g s, Item.isOk h.item = true) ↔ allOk s = true := by
-  simp [handed, allOk_iff]
+  rw [allOk_iff]
+  constructor
+  · intro h x hx
+    rw [← handedFrom_items g s false] at hx
+    obtain ⟨y, hy, rfl⟩ := List.mem_map.1 hx
+    exact h y hy
+  · intro h y hy
+    apply h
+    rw [← handedFrom_items g s false]
+    exact List.mem_map.2 ⟨y, hy, rfl⟩
 
 end
 
